@@ -25,6 +25,9 @@ def arrSum {A : Type} [Add A] [Zero A] (a : Arr A) : A :=
 def normalizePower (a : Arr K) (p : R) : Arr K :=
   { a with get := fun i j => a.get i j * CxLike.ofReal (Gen.npFactor RealLike.sqrt RealLike.ofInt p (arrSum (intensity (R := R) a))) }
 
+/-- `normalize_power(array)`: the call that omits `power` takes the default regenerated from the signature (`Gen.npDefaultPower`) -/
+def normalizePowerDefault (a : Arr K) : Arr K := normalizePower a (RealLike.ofInt (R := R) Gen.npDefaultPower)
+
 /-- the sum of the fields' embeddings on an `S0 × S1` array with the origin at index `⌊S/2⌋`
 (`lentil.pad(wavefront.field, fft_shape)`) -/
 def embedAll (fs : List (Fld K)) (S0 S1 : Int) : Arr K :=
